@@ -913,6 +913,12 @@ func (st *Stack) Clean() error {
 
 		fn := filepath.Join(st.reftableDir, name)
 		bs, err := NewFileBlockSource(fn)
+		if os.IsNotExist(err) {
+			// Another process removed it in the meantime (a
+			// compaction deletes its inputs after releasing
+			// the lock): nothing left to clean.
+			continue
+		}
 		if err != nil {
 			return err
 		}
